@@ -20,12 +20,11 @@
    id column -- also over an un-windowed extend, where the generator's `.extend({id: label})` merges the label into that
    ExtendNode; NOT over an order_rows without limit, which that builder call skips: the rows then come in another order,
    transcribed but not proved),
-   windowed extend (stage v): for dialects that do not merge at SQL level, always; for dialects that DO merge (the default),
-   when extend_to_near_sql has no merge to attempt around it -- its source's step is not an extend step (`mergeable_src s =
-   false`: a table, select_rows, project, rename / map_columns, order_rows, natural_join, concat_rows, or select / drop_columns
-   over such) and neither an extend nor an id-column concat_rows reads it directly or through select / drop_columns
-   (`win_top`); Proofs/SqlGenP17.v gen_not_mg shows that the generator then writes a fresh step (all node kinds, all dialects),
-   and
+   windowed extend (stage v) for every dialect, INCLUDING the SQL-level extend merge around it (a windowed extend folded
+   into the extend step below it, an un-windowed or windowed extend or the id-column extend of concat_rows folded into a
+   windowed step, through select / drop_columns too): Proofs/SqlGenP18.v restates the merge invariant and the merged step
+   for non-aggregate terms (MergeInvN, unary_nonagg_delivers, merged_delivers_gen) on top of merge_compose_win
+   (Proofs/SqlGenP17.v), Proofs/SqlGenP19.v instantiates it for the windowed and the un-windowed extend, and
    natural_join WRITTEN AS A JOIN (stage iv, `join_covered d fl jt`): INNER and LEFT for every dialect; RIGHT when the dialect
    does not rewrite it (d_rewrite_right d = false: DBModel / PostgreSQLModel); FULL when the dialect does not rewrite it
    (d_rewrite_full d = false: DBModel / PostgreSQLModel, and SQLiteModel linked with SQLite >= 3.39) -- anywhere in the
@@ -41,11 +40,6 @@
        COALESCE(right, left), i.e. join_terms false, and C16's right/left mirror law) and FULL as the three-way construction
        (d_rewrite_full: SQLite < 3.39);
      - the generator before 6d4c3d4 (d_join_carry d = false), which is the finding SQLGEN-join-unused-side-bare-table-ambiguous;
-     - a windowed extend that extend_to_near_sql actually tries to merge at SQL level (directly, or through select / drop_columns,
-       over an extend, or under an extend / id-column concat_rows): for these SQLGEN_window_merge_partial gives the SELECT-level
-       equation (merged SELECT = outer SELECT over inner SELECT, window items on either side), which is the content of the
-       window_vars contention test; carrying it through the induction needs the invariant MergeInv (Proofs/SqlGenP12.v) and
-       merged_delivers (Proofs/SqlGenP13.v) restated for non-aggregate instead of scalar terms -- not done.
 
    WHICH PROPERTY FILE EACH THEOREM STRENGTHENS
      SQLGEN_correct_partial, SQLGEN_correct_toplevel_partial   Props/C01.v (SQLite SQL = reference semantics fl_sqlite: the behavioural
@@ -154,7 +148,8 @@ Proof.
 Qed.
 Print Assumptions SQLGEN_join_partial.
 
-(* Stage (v) under SQL-level merging, at the level of one merge (PARTIAL: see the header for what the induction covers).
+(* Stage (v) under SQL-level merging, at the level of one merge (the induction of the theorems above uses it for every merge;
+   kept under its first name).
    ts / ds : terms and declared dependencies of the step below (its SELECT over X, asked for the columns su', yields Y);
    tms / deps : terms and declared dependencies of the extend being generated; neither side aggregates, either side may carry
    window items  f(..) OVER (PARTITION BY .. ORDER BY ..).  If the declared dependencies cover what each term reads
@@ -270,3 +265,16 @@ Example SQLGEN_window_guard_merging_satisfiable :
   builder_ok ex_w = true /\ stage1 true (join_covered d_sqlite fl_sqlite) ex_w = true /\
   match to_near d_sqlite ex_w None 0 with Ok (q, _) => nsem fl_sqlite q ex_env = sem_gen fl_sqlite ex_w ex_env | _ => False end.
 Proof. split; [vm_compute; reflexivity|]. split; vm_compute; reflexivity. Qed.
+(* windowed extends MERGED at SQL level, default dialect: the windowed extend folded into the extend below it (one SELECT
+   with x and the window item r), and an un-windowed extend folded into a windowed step *)
+Definition ex_wm := OExtend (OExtend ex_t [("x", EOp "+" [ECol "a"; ECol "b"])] false no_window)
+                            [("r", EOp "cumsum" [ECol "a"])] true (mkwin ["c"] ["b"] []).
+Definition ex_mw := OExtend (OExtend ex_t [("r", EOp "cumsum" [ECol "a"])] true (mkwin ["c"] ["b"] []))
+                            [("y", EOp "*" [ECol "a"; EConst (VNum 2)])] false no_window.
+Definition is_one_step (q : tnear) : bool := match q with TUnary _ _ (TTable _ _) _ _ _ _ => true | _ => false end.
+Example SQLGEN_window_merged_satisfiable :
+  builder_ok ex_wm = true /\ stage1 true (join_covered d_sqlite fl_sqlite) ex_wm = true /\
+  builder_ok ex_mw = true /\ stage1 true (join_covered d_sqlite fl_sqlite) ex_mw = true /\
+  match to_near d_sqlite ex_wm None 0 with Ok (q, _) => is_one_step q = true /\ nsem fl_sqlite q ex_env = sem_gen fl_sqlite ex_wm ex_env | _ => False end /\
+  match to_near d_sqlite ex_mw None 0 with Ok (q, _) => is_one_step q = true /\ nsem fl_sqlite q ex_env = sem_gen fl_sqlite ex_mw ex_env | _ => False end.
+Proof. repeat (split; [vm_compute; reflexivity|]). split; vm_compute; split; reflexivity. Qed.
